@@ -42,6 +42,8 @@ def parseBool (s : String) : Option Bool :=
 inductive DOp where
   | op (o : Op)
   | runTraps (exit : Nat)
+  /-- a signal sent to the process, then `run_traps_for_caught_signals` (which polls itself) -/
+  | raiseRun (sig : Nat) (exit : Nat)
 
 def parseOp (k : Nat) (t : String) : Option DOp :=
   match words t with
@@ -61,6 +63,9 @@ def parseOp (k : Nat) (t : String) : Option DOp :=
     let n ← parseSig s
     if n = SIGKILL ∨ n = SIGSTOP then none else pure (.op (.deliver n))
   | ["run", n] => do pure (.runTraps (← n.toNat?))
+  | ["irun", s, n] => do
+    let sig ← parseSig s
+    if sig = SIGKILL ∨ sig = SIGSTOP then none else pure (.raiseRun sig (← n.toNat?))
   | _ => none
 
 def showAction : Action → String
@@ -103,12 +108,14 @@ def delta (old new : List String) : List String :=
     if o == n then none else some s!"{name}={n}"
 
 /-- bodies used by the harness, by `c / 1000`: `probe c; st 7`, `probe c; return 3`,
-    `probe c; exit 4`, `probe c; false` -/
-def body7 : Body := fun c _ t =>
+    `probe c; exit 4`, `probe c; false`, `probe c; : ${U?}` (an expansion error: `Interrupt`, with
+    `$?` still what it was on entry) -/
+def body7 : Body := fun c e t =>
   (match c / 1000 with
    | 1 => { exit := 0, divert := some (.ret (some 3)) }
    | 2 => { exit := 0, divert := some (.exit (some 4)) }
    | 3 => { exit := 1 }
+   | 4 => { exit := e, divert := some (.interrupt (some 2)) }
    | _ => { exit := 7 }, t)
 
 def showDivert : Option Divert → String
@@ -117,6 +124,10 @@ def showDivert : Option Divert → String
   | some (.exit st) => s!"exit{st.getD (-1)}"
   | some (.interrupt st) => s!"int{st.getD (-1)}"
   | some .other => "other"
+
+/-- what `poll_signals` collects after `sig` was sent: the signal, if `Catch` is installed -/
+def polledBy (st : State) (sig : Nat) : List Nat :=
+  if st.sys.disp sig = .catch ∧ (st.sys.selectMask.getD st.sys.blocked) sig = false then [sig] else []
 
 def opResult (st : State) : DOp → String
   | .op (.setAction c a o ov) => showErr (setAction st c a o ov).2
@@ -135,11 +146,17 @@ def opResult (st : State) : DOp → String
     let r := runTrapsForCaughtSignals body7 false st.traps e
     let runs := r.runs.map fun (s, c) => s!"{condName s}:{c}@{e}"
     s!"runs={",".intercalate runs};exit={r.exit};div={showDivert r.divert}"
+  | .raiseRun sig e =>
+    let r := runTrapsAfterPoll body7 false (polledBy st sig) st.traps e
+    let runs := r.runs.map fun (s, c) => s!"{condName s}:{c}@{e}"
+    s!"runs={",".intercalate runs};exit={r.exit};div={showDivert r.divert}"
   | _ => "-"
 
 def dstep (st : State) : DOp → State
   | .op o => step st o
   | .runTraps e => { st with traps := (runTrapsForCaughtSignals body7 false st.traps e).traps }
+  | .raiseRun sig e =>
+    { st with traps := (runTrapsAfterPoll body7 false (polledBy st sig) st.traps e).traps }
 
 /-- Spec verdict for a `run`: the bodies run followed by the bodies still pending are exactly the
     bodies that were pending, once each (whatever the bodies end in); `$?` is preserved; a run not
@@ -278,9 +295,10 @@ def mergeDivert : Option Divert → Option Divert → Option Divert
   | some a, some b => some (a.max b)
 
 /-- trap bodies of the `multi` scripts: `c = kind * 1000 + tag`, `tag % 500 - 200` = the signal -/
-def scriptBody : Body := fun c _ t =>
+def scriptBody : Body := fun c e t =>
   let tag := c % 1000
   match c / 1000 with
+  | 5 => ({ exit := e, divert := some (.interrupt (some 2)) }, t)
   | 1 => ({ exit := 0, divert := some (.ret (some 3)) }, t)
   | 2 => ({ exit := 0, divert := some (.exit (some 4)) }, t)
   | 3 => ({ exit := 1 }, t)
@@ -320,7 +338,7 @@ end
 
 def parseKind (k : String) : Option Nat :=
   match k with
-  | "P" => some 0 | "R" => some 1 | "E" => some 2 | "F" => some 3 | "N" => some 4
+  | "P" => some 0 | "R" => some 1 | "E" => some 2 | "F" => some 3 | "N" => some 4 | "I" => some 5
   | _ => none
 
 def parseSK (w : String) : Option (Nat × Nat) :=
